@@ -104,6 +104,8 @@ func (c09) Cases(tier string, emit func(string, interface{})) {
 		"A:\n    -|> M\n    Own:\n        ...\nM [~abstract]:\n    !type MT:\n        f <: int\n    !view v(p <: int) -> int:\n        p -> (:\n            x = p\n        )\n    Sh:\n        ...\n",
 		"P:\n    <-> Ev:\n        ...\nS:\n    P -> Ev:\n        x\nS2:\n    P -> Ev:\n        y\n    Q -> Other:\n        z\n",
 		"A:\n    !type Outer%2EInner:\n        f <: int\n    !type Outer:\n        g <: Outer%2EInner\n    !type Outer%2EInner%2EDeep:\n        h <: string\n",
+		// dotted references of 2, 3 and 4 segments rooted at a local type, at another application's type, in fields and parameters
+		"Shop:\n    !type Geo:\n        lat <: int\n    !type Addr:\n        geo <: Geo\n    !type Customer:\n        id <: int\n        home <: Addr\n    !type Order:\n        a <: Customer.id\n        b <: Customer.home.geo\n        c <: Customer.home.geo.lat\n        d <: Other.U.z\n        e <: sequence of Customer.home.geo\n    Ep (p <: Customer.home.geo, q <: Other.U.z):\n        return ok <: Customer.home.geo\nOther:\n    !type U:\n        z <: int\n",
 	} {
 		emit("postproc", c09Case{Text: t, Lab: fmt.Sprintf("postproc-%d", i)})
 	}
